@@ -241,7 +241,7 @@ fn c08_render_schedule() {
 // @tier quick
 // @timeout 600
 // @fn ZXScreen::new_frame; ZXScreen::switch_flash; ZXScreen::frame_buffer
-// @sym number of frames already shown (any < 4096), buffer contents via the witness recorders
+// @sym number of frames already shown (any < 2^62), buffer contents via the witness recorders
 // @assert a frame end delivers the buffer that was being rendered (front/back swap), restarts rendering at the first cell, and the FLASH phase flips exactly every 16 frames (phase of frame n = ((n+15)/16) odd), inductively for any number of frames
 // @bound one frame end from an arbitrary frame number
 #[kani::proof]
@@ -251,7 +251,8 @@ fn c08_frame_end_and_flash() {
     let mut s = ZXScreen::<WitFb>::new(m, FbCtx { wx: 3, wy: 5 });
     kani::assert(s.flash == spec_flash_phase(0) && s.frame_counter == 0, "c08.flash.initial_phase");
     let n: usize = kani::any();
-    kani::assume(n < 4096);
+    // any number of frames a machine can have shown (2^62 frames are 10^9 centuries)
+    kani::assume(n < (1usize << 62));
     set_flash_phase(&mut s, n);
     let hits: u32 = kani::any();
     kani::assume(hits < 100);
@@ -266,6 +267,7 @@ fn c08_frame_end_and_flash() {
     kani::assert(s.frame_counter == n + 1 && s.flash == spec_flash_phase(n + 1), "c08.flash.toggles_every_16_frames");
     kani::cover!(n % 16 == 0 && n > 0, "toggle frame");
     kani::cover!(n % 16 == 5, "non-toggle frame");
+    kani::cover!(n == 65534, "frame 65534 (16-bit boundary of the counter)");
 }
 
 // @harness
